@@ -101,6 +101,32 @@ func which(err error) string {
 	return "other"
 }
 
+// frameFn names the function recorded in the source frame an error was wrapped with. The XGo
+// build wraps the error (its text carries "===> errors stack:" and the function name); in the
+// reference program the error is the plain sentinel and the expected name is returned.
+func frameFn(err error, want string) string {
+	if err == nil {
+		return ""
+	}
+	s := err.Error()
+	i := strings.Index(s, "errors stack:\n")
+	if i < 0 {
+		return want
+	}
+	rest := s[i+len("errors stack:\n"):]
+	if j := strings.IndexAny(rest, "(\n"); j >= 0 {
+		rest = rest[:j]
+	}
+	return rest
+}
+
+func frameR(r interface{}, want string) string {
+	if e, ok := r.(error); ok {
+		return frameFn(e, want)
+	}
+	return ""
+}
+
 func whichR(r interface{}) string {
 	if r == nil {
 		return "no-panic"
@@ -396,7 +422,7 @@ func (g *G) ErrWrapItem() Item {
 		if len(encl) > 0 {
 			callX += ", "
 		}
-		callX += "which(err))\nflush(false)"
+		callX += "which(err), frameFn(err, \"main." + id + "\"))\nflush(false)"
 		if g.Chance(40, "in-funclit") {
 			// `?` returns from the innermost function: here a function literal with an error result
 			// inside a named function that has none
@@ -431,7 +457,7 @@ func (g *G) ErrWrapItem() Item {
 					inner = "onEvtS(\"evt\", func(v string) {\n\t_ = v\n" + indent(inner) + "\n})"
 				}
 			}
-			return fmt.Sprintf("func %s() {\n\tdefer func() {\n\t\tfmt.Println(\"  recovered\", whichR(recover()))\n\t}()\n%s\n%s\n%s\n}", id, indent(pre), indent(inner), indent(state))
+			return fmt.Sprintf("func %s() {\n\tdefer func() {\n\t\tr := recover()\n\t\tfmt.Println(\"  recovered\", whichR(r), frameR(r, \"main.%s\"))\n\t}()\n%s\n%s\n%s\n}", id, id, indent(pre), indent(inner), indent(state))
 		}
 		if inLambda {
 			labels = append(labels, "inside-lambda-of-overloaded-call")
